@@ -528,4 +528,10 @@ theorem go_just : ∀ e, Just1 e := by
         simp only [oblsA, Option.getD] at j2 ⊢
         exact JL.append (JL.append (JL.append (j0.mono L0) (j1.mono L1)) (JL.one (Or.inr (l3.mem _ (mem_push _ _))))) j2
 
+theorem envAll_params {B} : ∀ (ps : List (Nat × Ty)) Γ, BIn B ps → EnvAll B Γ → EnvAll B (insertParams ps Γ)
+  | [], _, _, h => h
+  | (x, t) :: ps, Γ, hB, h => by
+    simp only [insertParams]
+    exact envAll_params ps _ (fun p hp => hB p (List.mem_cons_of_mem _ hp)) (h.insert (hB (x, t) List.mem_cons_self))
+
 end Goml.Infer
